@@ -805,6 +805,7 @@ func c09E2E(c *Ctx, tuples []c09Tuple) {
 	wg.Wait()
 	c09SameTextTwice(c, bed)
 	c09KeyspaceSwitchSameConn(c, bed)
+	c09UseTimesOut(c)
 	if c.Shard == 0 {
 		c09PrepareKeyspaceOption(c)
 	}
@@ -1333,6 +1334,83 @@ func c09PreparedSurvivesOtherConnections(c *Ctx, bed *px.Bed) {
 		r.NonTrivial(fmt.Sprintf("prepared-survives/conns=%d/gone=%d", nConn, gone))
 		for _, cl := range cls[gone:] {
 			cl.Close()
+		}
+	}
+}
+
+// c09UseTimesOut: a USE that fails without an answer from the backend - the proxy's own USE on the connections of the new
+// session is still unanswered when the connect timeout ends - leaves the connection's keyspace what it was, like a USE the
+// backend refuses: the bare names local / peers are the proxy's own while the keyspace in force is system and are forwarded
+// while it is a user keyspace.
+func c09UseTimesOut(c *Ctx) {
+	r := c.R
+	bed, err := px.NewBed(px.BedConfig{Hosts: 1, NumConns: 1, Keyspaces: []string{"ks1"}, KeepBodies: true, ConnectTimeout: 400 * time.Millisecond})
+	if err != nil {
+		r.Inconc("C09 use-times-out: cannot start bed: " + err.Error())
+		return
+	}
+	defer bed.Close()
+	bed.Cluster.SetSlowUse("slowks", 1500*time.Millisecond)
+	opts := &message.QueryOptions{Consistency: primitive.ConsistencyLevelOne}
+	n := 0
+	for _, inForce := range []string{"system", "ks1"} {
+		for _, tbl := range []string{"local", "peers"} {
+			for _, prepare := range []bool{false, true} {
+				n++
+				cl, err := bed.ReadyClient(primitive.ProtocolVersion4, "")
+				if err != nil {
+					r.Inconc("C09 use-times-out: " + err.Error())
+					return
+				}
+				if f, err := cl.Call(1, &message.Query{Query: "USE " + inForce, Options: opts}, c09Wait); err != nil || f.OpCode != primitive.OpCodeResult {
+					cl.Close()
+					r.Inconc("C09 use-times-out: USE " + inForce + " failed")
+					return
+				}
+				f, err := cl.Call(2, &message.Query{Query: "USE slowks", Options: opts}, 20*time.Second)
+				if err != nil || f == nil {
+					cl.Close()
+					r.Inconc("C09 use-times-out: the slow USE got no reply")
+					return
+				}
+				if f.OpCode != primitive.OpCodeError {
+					cl.Close()
+					r.Obs("use_times_out_premise_missing", 1) // the USE got through in time
+					continue
+				}
+				lit := fmt.Sprintf("timeouttext%04d", n)
+				text := fmt.Sprintf("SELECT * FROM %s WHERE key='%s'", tbl, lit)
+				mark := bed.Log.Len()
+				var msg message.Message = &message.Query{Query: text, Options: opts}
+				if prepare {
+					msg = &message.Prepare{Query: text}
+				}
+				_, _ = cl.Call(3, msg, c09Wait)
+				_, _ = cl.Call(4, &message.Query{Query: "SELECT * FROM ks1.t WHERE key='" + NewTok() + "'", Options: opts}, c09Wait) // barrier: one forwarded statement
+				seen := 0
+				for _, e := range bed.Log.Snapshot()[mark:] {
+					if e.Src == "backend" && e.K == "recv" && !e.Ctl && bytes.Contains(e.Body, []byte(lit)) {
+						seen++
+					}
+				}
+				cl.Close()
+				want := 1
+				if inForce == "system" {
+					want = 0
+				}
+				r.Eval(1)
+				r.Obs("use_times_out_cases", 1)
+				r.NonTrivial(fmt.Sprintf("use-times-out/%s/%s/prepare=%v", inForce, tbl, prepare))
+				if seen != want {
+					what := "system-read-forwarded"
+					if want == 1 {
+						what = "user-statement-intercepted"
+					}
+					r.Violate(mon.Violation{Signature: fmt.Sprintf("C09/use-times-out/%s/prepare=%v", what, prepare),
+						Detail:   fmt.Sprintf("one connection: USE %s (answered), USE slowks (the backend takes longer over it than the proxy's connect timeout; answered with an error, so keyspace %s stays in force), then %q: it reached a backend %d times (must be %d)", inForce, inForce, text, seen, want),
+						Scenario: map[string]interface{}{"kind": "c09-use-times-out"}})
+				}
+			}
 		}
 	}
 }
